@@ -849,6 +849,16 @@ class RewriteRuleSet:
             count += self._apply_to_graph_or_function(
                 model, function, verbose=verbose, tracer=tracer
             )
+        if count > 0 and any(
+            not rule._target_pattern.has_single_output_node  # pylint: disable=protected-access
+            for rule in self.rules
+        ):
+            # The replacement for a pattern with several output nodes is inserted after the first
+            # of them, possibly before the definition of its own inputs or after a consumer:
+            # restore a topological order (the sort is stable, sorted graphs are unchanged).
+            model.graph.sort()
+            for function in model.functions.values():
+                function.sort()
         if self.remove_unused_nodes:
             onnxscript.optimizer.remove_unused_nodes(model)
         if count > 0:
